@@ -1,6 +1,13 @@
 #!/bin/sh
-# Builds the model driver from the extracted code (coq/C14/Extract_C14.v writes c14_model.ml here).
+# Builds the model driver from the extracted code.  coq/C14/Extract_C14.v writes ../gen/c14_model.ml{,i} (ocaml/gen is
+# git-ignored); every copy and compiled output stays under _build/ (git-ignored), nothing is written next to the sources.
 set -e
 cd "$(dirname "$0")"
-ocamlfind ocamlopt -O2 -w -a -package str c14_model.mli c14_model.ml c14_driver.ml -o c14_model 2>/dev/null || \
-ocamlfind ocamlopt -w -a c14_model.mli c14_model.ml c14_driver.ml -o c14_model
+mkdir -p _build
+if [ ! -f ../gen/c14_model.ml ]; then echo "missing ocaml/gen/c14_model.ml (build coq/C14/Extract_C14.vo first)" >&2; exit 3; fi
+if [ -x _build/c14_model ] && [ _build/c14_model -nt ../gen/c14_model.ml ] && [ _build/c14_model -nt c14_driver.ml ]; then exit 0; fi
+cp ../gen/c14_model.ml ../gen/c14_model.mli c14_driver.ml _build/
+cd _build
+ocamlfind ocamlopt -O2 -w -a c14_model.mli c14_model.ml c14_driver.ml -o c14_model.tmp 2>/dev/null || \
+ocamlfind ocamlopt -w -a c14_model.mli c14_model.ml c14_driver.ml -o c14_model.tmp
+mv c14_model.tmp c14_model
